@@ -47,7 +47,8 @@ DBN = [8]                   # delete_by_name
 OBJ = [9]                   # object_delete / object_pick
 INS = [10]                  # array_insert
 OIN = [11]                  # object_insert
-SET = [12, 13]              # array_distinct / intersection / except / overlap
+DIS = [11]                  # array_distinct
+SET = [13]                  # array_intersection / array_except (needs 12)
 ITER = [5]                  # ObjectEntryIterator
 
 AB_LOOP = ("            let jentry = write_entry(buf, entry);\n"
@@ -108,6 +109,18 @@ MUTATIONS = [
     ("ai-new-value-after-rest", F, "    while let Some((jentry, item)) = items.pop_front() {\n        builder.push_raw(jentry, item);\n    }\n    builder.build_into(buf);", "    builder.build_into(buf);", 0, INS, "ai_loop3_run"),
     ("ai-object-not-wrapped", F, "        OBJECT_CONTAINER_TAG => {\n            let jentry = JEntry::make_container_jentry(value.len());\n            items.push_back((jentry, value));", "        OBJECT_CONTAINER_TAG => {\n            let jentry = JEntry::make_string_jentry(value.len());\n            items.push_back((jentry, value));", 0, INS, "array_insert_jsonb_agrees"),
     ("ai-scalar-len-zero", F, "        (header & CONTAINER_HEADER_LEN_MASK) as i32\n    } else {\n        1\n    };", "        (header & CONTAINER_HEADER_LEN_MASK) as i32\n    } else {\n        0\n    };", 0, INS, "array_insert_jsonb_agrees"),
+    # functions.rs: the set functions
+    ("ad-keeps-duplicates", F, "                if !item_set.contains(&(jentry.clone(), item)) {\n                    item_set.insert((jentry.clone(), item));", "                if !item_set.contains(&(jentry.clone(), item)) {", 0, DIS, "ad_loop1_step"),
+    ("ad-keeps-only-duplicates", F, "                if !item_set.contains(&(jentry.clone(), item)) {", "                if item_set.contains(&(jentry.clone(), item)) {", 0, DIS, "ad_loop1_step"),
+    ("ad-object-not-wrapped", F, "        OBJECT_CONTAINER_TAG => {\n            let jentry = JEntry::make_container_jentry(value.len());\n            builder.push_raw(jentry, value);", "        OBJECT_CONTAINER_TAG => {\n            let jentry = JEntry::make_string_jentry(value.len());\n            builder.push_raw(jentry, value);", 0, DIS, "array_distinct_jsonb_agrees"),
+    ("ai2-count-not-incremented", F, "                    *cnt += 1;", "                    *cnt += 0;", 0, SET, "array_intersection_jsonb_loop1_step"),
+    ("ai2-first-count-2", F, "                    item_map.insert((jentry2, item2), 1);", "                    item_map.insert((jentry2, item2), 2);", 0, SET, "array_intersection_jsonb_loop1_step"),
+    ("ai2-count-not-used-up", F, "                    if *cnt > 0 {\n                        *cnt -= 1;\n                        builder.push_raw(jentry1, item1);", "                    if *cnt > 0 {\n                        builder.push_raw(jentry1, item1);", 0, SET, "array_intersection_jsonb_loop2_step"),
+    ("ai2-keeps-at-zero", F, "                    if *cnt > 0 {\n                        *cnt -= 1;\n                        builder.push_raw(jentry1, item1);", "                    if *cnt >= 0 {\n                        *cnt -= 1;\n                        builder.push_raw(jentry1, item1);", 0, SET, "array_intersection_jsonb_loop2_step"),
+    ("ai2-object-operand-inverted", F, "            if item_map.contains_key(&(jentry1.clone(), value1)) {", "            if !item_map.contains_key(&(jentry1.clone(), value1)) {", 0, SET, "array_intersection_jsonb_agrees"),
+    ("ae-count-not-used-up", F, "                    if *cnt > 0 {\n                        *cnt -= 1;\n                        continue;", "                    if *cnt > 0 {\n                        continue;", 0, SET, "array_except_jsonb_loop2_step"),
+    ("ae-continue-dropped", F, "                    if *cnt > 0 {\n                        *cnt -= 1;\n                        continue;\n", "                    if *cnt > 0 {\n                        *cnt -= 1;\n", 0, SET, "array_except_jsonb_loop2_step"),
+    ("ae-object-operand-inverted", F, "            if !item_map.contains_key(&(jentry1.clone(), value1)) {", "            if item_map.contains_key(&(jentry1.clone(), value1)) {", 0, SET, "array_except_jsonb_agrees"),
     ("od-keeps-listed", F, "        if keys.contains(key) {\n            continue;\n        }", "        if !keys.contains(key) {\n            continue;\n        }", 0, OBJ, "od_loop1_step"),
     ("op-drops-listed", F, "        if !keys.contains(key) {\n            continue;\n        }", "        if keys.contains(key) {\n            continue;\n        }", 0, OBJ, "op_loop1_step"),
     ("od-accepts-arrays", F, "    if header & CONTAINER_HEADER_TYPE_MASK != OBJECT_CONTAINER_TAG {\n        return Err(Error::InvalidObject);\n    }\n\n    let mut builder = ObjectBuilder::new();\n    for (key, jentry, item) in iterate_object_entries(value, header) {\n        if keys.contains(key) {", "    if header & CONTAINER_HEADER_TYPE_MASK != ARRAY_CONTAINER_TAG {\n        return Err(Error::InvalidObject);\n    }\n\n    let mut builder = ObjectBuilder::new();\n    for (key, jentry, item) in iterate_object_entries(value, header) {\n        if keys.contains(key) {", 0, OBJ, "object_delete_jsonb_agrees"),
@@ -126,6 +139,8 @@ RESPELLINGS = [
     ("oei-offsets-commuted", I, "        key_offset: 4 + length * 8,\n        val_offset: 4 + length * 8,", "        key_offset: length * 8 + 4,\n        val_offset: 8 * length + 4,", 0, ITER),
     ("ai-clamp-test-flipped", F, "    } else if idx > len {\n        len\n    } else {", "    } else if len < idx {\n        len\n    } else {", 0, INS),
     ("ai-break-test-flipped", F, "            i += 1;\n            if i >= idx {\n                break;", "            i += 1;\n            if idx <= i {\n                break;", 0, INS),
+    ("ai2-count-sum-commuted", F, "                    *cnt += 1;", "                    *cnt = 1 + *cnt;", 0, SET),
+    ("ai2-positive-test-flipped", F, "                    if *cnt > 0 {\n                        *cnt -= 1;\n                        builder.push_raw(jentry1, item1);", "                    if 0 < *cnt {\n                        *cnt -= 1;\n                        builder.push_raw(jentry1, item1);", 0, SET),
     ("dbn-test-as-equality", F, "                if !key.eq(name) {\n                    builder.push_raw(key, jentry, item);", "                if key != name {\n                    builder.push_raw(key, jentry, item);", 1, DBN),
 ]
 
